@@ -64,7 +64,7 @@ package align
 
 //@ func traceAlignmentSteps
 //@   props C08 C09
-//@   requires bn >= 1 && len(blocks) >= 1 && bn <= 72057594037927936
+//@   requires bn >= 1 && len(blocks) >= 1 && bn <= 144115188075855872
 //@   requires forall c int :: 0 < c && c < len(blocks) ==> stepsOK(fieldarr(blocks, step), bn, c)
 //@   ensures result.1 == blocks[len(blocks)-1].score
 //@   loop 1
@@ -95,7 +95,7 @@ package align
 
 //@ func traceAlignmentStepsLocal
 //@   props C08 C09
-//@   requires bn >= 1 && len(blocks) >= 1 && bn <= 72057594037927936
+//@   requires bn >= 1 && len(blocks) >= 1 && bn <= 144115188075855872
 //@   requires forall c int :: 0 <= c && c < len(blocks) ==> blocks[c].score >= 0.0
 //@   requires forall c int :: 0 <= c && c < len(blocks) && blocks[c].score > 0.0 ==>
 //@              idiv(c, bn) >= 1 && imod(c, bn) >= 1 && (blocks[c].step == 1 || blocks[c].step == 2 || blocks[c].step == 3)
